@@ -575,7 +575,17 @@ pub fn run_script<'a, E: Elem, Tr: ?Sized + TrSet, M: MemB, M2: MemB>(
                 lib(|| drop(item));
             }
             ITEM_MUTATE => {
-                let new = E::make(r.tags[tag_cursor]);
+                // the model hands out one fresh tag per item it expects; an iterator that yields
+                // more than that has already diverged (reported through the events)
+                let fresh = match r.tags.get(tag_cursor) {
+                    Some(t) => *t,
+                    None => {
+                        cx.ev.push(Ev::Bool(false));
+                        lib(|| drop(item));
+                        continue;
+                    }
+                };
+                let new = E::make(fresh);
                 tag_cursor += 1;
                 match lib(|| item.downcast_mut::<E>()) {
                     Some(slot) => *slot = new,
